@@ -120,6 +120,7 @@ type features struct {
 	ptrEscNames, urlEscNames                                  int
 	inlineComplex                                             int
 	cyclic                                                    bool
+	nestedDefs                                                bool
 	holders                                                   map[string]bool
 }
 
@@ -148,6 +149,9 @@ func bundleFeatures(c *gen.FlattenCase) *features {
 			},
 			Schema: func(l oracle.Loc, s O, holder string) {
 				f.holders[holder] = true
+				if holder == "definitions" && len(l.Tokens) > 2 {
+					f.nestedDefs = true
+				}
 				if isRoot && !(len(l.Tokens) == 2 && l.Tokens[0] == "definitions") && oracle.IsComplex(s) {
 					f.inlineComplex++
 				}
@@ -367,7 +371,10 @@ func checkFlattenCore(id string, c *gen.FlattenCase) Outcome {
 }
 
 func flattenCfg(id string) gen.BundleCfg {
-	cfg := gen.BundleCfg{MaxDepth: MaxDepth(), MaxLayer: 3, Exotic: true, AnonPtrs: true, OptSets: gen.AllOptSets}
+	// anyOf / oneOf / not / patternProperties / nested definitions are not part of the Swagger 2.0 schema
+	// object: documents using them are outside W ("a root Swagger 2.0 document ...") and only C09 (class W+,
+	// "any document the spec model can load") generates them
+	cfg := gen.BundleCfg{MaxDepth: MaxDepth(), MaxLayer: 3, Exotic: id == "C09", AnonPtrs: true, OptSets: gen.AllOptSets}
 	switch id {
 	case "C02", "C08":
 		cfg.OptSets = []wproto.FlattenOpts{gen.OptMinimal, gen.OptMinimalRU, gen.OptFull, gen.OptFullRU}
